@@ -512,6 +512,23 @@ func (u *Universe) localFieldValues(a *ssa.Alloc, sels []Sel, busy map[ssa.Value
 			found = true
 		}
 	}
+	// stores made by callees into this object (see RefineHeap)
+	for _, hs := range u.heapStores[a] {
+		if len(hs.sels) > len(sels) || !selsEqual(hs.sels, sels[:len(hs.sels)]) {
+			continue
+		}
+		ps := []Path{hs.val}
+		for _, s := range sels[len(hs.sels):] {
+			ps = u.extendAll(ps, s, busy)
+		}
+		out = append(out, ps...)
+		if !found {
+			// the object's own field stays a possibility (callees may also
+			// have stored objects they created themselves)
+			out = append(out, Path{Root: a, Sels: append([]Sel{}, sels...)})
+		}
+		found = true
+	}
 	return dedupPaths(out), found
 }
 
@@ -543,15 +560,15 @@ func (u *Universe) throughCall(c *ssa.Call, p Path, busy map[ssa.Value]bool) ([]
 	if callee == nil || !u.Transparent(callee) {
 		return nil, false
 	}
-	if busy[c] {
+	if u.callBusy[c] {
 		return nil, false
 	}
-	busy[c] = true
-	defer delete(busy, c)
+	u.callBusy[c] = true
+	defer delete(u.callBusy, c)
 	var inner []Path
-	for _, r := range Returns(callee) {
+	for _, r := range NormalReturns(callee) {
 		if p.Res < len(r.Results) {
-			inner = append(inner, u.pathsOf(r.Results[p.Res], busy)...)
+			inner = append(inner, u.pathsOf(ReturnResult(r, p.Res), busy)...)
 		}
 	}
 	inner = dedupPaths(inner)
@@ -667,4 +684,29 @@ func PathStrings(ps []Path) []string {
 	}
 	sort.Strings(out)
 	return out
+}
+
+// Extend applies a field selection to a set of paths (resolving through
+// local stores and callee bodies like the analysis itself does).
+func (u *Universe) Extend(ps []Path, f *types.Var) []Path {
+	return u.extendAll(ps, Sel{F: f}, map[ssa.Value]bool{})
+}
+
+// ExtendElem applies an element selection to a set of paths.
+func (u *Universe) ExtendElem(ps []Path) []Path {
+	return u.extendAll(ps, Sel{}, map[ssa.Value]bool{})
+}
+
+// FieldByName finds a field of the struct underlying t (through a pointer).
+func FieldByName(t types.Type, name string) *types.Var {
+	st := StructOf(t)
+	if st == nil {
+		return nil
+	}
+	for i := 0; i < st.NumFields(); i++ {
+		if st.Field(i).Name() == name {
+			return st.Field(i)
+		}
+	}
+	return nil
 }
